@@ -7,13 +7,20 @@ from oracle_util import *  # noqa
 from protocol import from_real, KEY_IDX
 
 ID = "C13"
-LEAN_MODULE = None
+LEAN_MODULE = ["SCoda.Props.C13", "SCoda.Props.C15"]
 CLAUSES = [
-    ("every note and signature event sits at the tick nearest to file_tick*24/file_ppq (error <= 1/2, no accumulation)", None),
-    ("one sequence per requested group whose sounding set is the union of the group's tracks", None),
-    ("all time/key signatures of the considered tracks are on the designated meta sequence", None),
-    ("tracks outside every group contribute no notes", None),
-    ("an invalid meta target index is rejected with ValueError", None),
+    ("every created event sits at roundHalfEven(prefix sum of the deltas * 24 / file_ppq): error <= 1/2 tick, exact on integers, and the running file tick is "
+     "the plain sum of deltas — no rounding is fed back (no accumulation)",
+     ["SCoda.C13.round_error", "SCoda.C13.round_int", "SCoda.C13.convMsg_tick", "SCoda.C13.convTrack_ticks"]),
+    ("one sequence per requested group; notes of a grouped track go to that track's own sequence with pitch, velocity and channel kept; "
+     "a group is the merge of its tracks' sequences, whose sounding set is the union (C15.union)",
+     ["SCoda.C13.one_per_group", "SCoda.C13.notes_to_group", "SCoda.C15.union"]),
+    ("all time/key signatures go to the meta sequence whatever track they come from; the meta target has a signature at tick 0 (the file's or the default 4/4)",
+     ["SCoda.C13.signatures_to_meta_fields", "SCoda.C13.signatures_to_meta_partial", "SCoda.C13.default_signature"]),
+    ("tracks outside every group contribute no notes", ["SCoda.C13.outside_group_no_notes"]),
+    ("an invalid meta target index is rejected (ValueError; IndexError only for an empty group)", ["SCoda.C13.bad_target"]),
+    ("end-to-end composition: the sounding set of loaded sequence g is the union over the group's tracks of their rounded note events "
+     "(needs per-track normalise + group merge composed; known finding D17 for zero-length notes)", None),
 ]
 RULE = ("MIDI files written with mido: resolutions from {1,7,24,48,96,100,480,960,997,32767}, 1-4 tracks, long delta "
         "patterns (drift), note-on velocity 0 as note-off, all groupings, meta selections and target indices, all 30 key names; "
